@@ -46,7 +46,7 @@ def generate(streams, tier):
                         fixed.append(list(e))
             black = [list(e) for e in shuffled(rw, pairs)[: rw.randint(1, 4)]] if rw.random() < 0.3 else None
             white = [list(e) for e in shuffled(rw, pairs)[: rw.randint(2, len(pairs))]] if rw.random() < 0.3 else None
-            ops.append({"op": "hill", "score": rw.choice(["k2", "bdeu", "bic", "aic"]), "as_instance": rw.random() < 0.5, "start": start, "fixed": fixed,
+            ops.append({"op": "hill", "score": rw.choice(["k2", "bdeu", "bic", "aic", "bds"]), "as_instance": rw.random() < 0.5, "start": start, "fixed": fixed,
                         "black": black, "white": white, "max_indegree": rw.choice([None, 1, 1, 2]), "tabu": rw.choice([0, 0, 0, 3, 100]),
                         "epsilon": rw.choice([1e-4, 1e-4, 0.5, 1e-9]), "max_iter": rw.choice([1000000, 1000000, 1, 2, 5]), "use_cache": rw.random() < 0.7,
                         "cache_size": rw.choice([1, 3, 10000])})
@@ -79,11 +79,21 @@ class RefScorer:
     def local(self, v, parents):
         key = (v, tuple(sorted(parents)))
         if key not in self.memo:
-            self.memo[key] = c10.ref_local(self.kind, self.card, self.rows, v, sorted(parents), self.ess)
+            # BDs: the search contract is checked against the score as implemented (its deviation from the published
+            # definition on unobserved parent configurations is C10's known finding, not a search defect)
+            kind = "bds_as_implemented" if self.kind == "bds" else self.kind
+            self.memo[key] = c10.ref_local(kind, self.card, self.rows, v, sorted(parents), self.ess)
         return self.memo[key]
 
+    def prior_delta(self, operation):
+        """log prior ratio of a move: BDs carries the marginal uniform structure prior (an arc costs log 2), the others none."""
+        if self.kind != "bds":
+            return 0.0
+        return {"+": -math.log(2.0), "-": math.log(2.0)}.get(operation, 0.0)
+
     def score(self, n, edges):
-        return sum(self.local(v, [a for a, b in edges if b == v]) for v in range(n))
+        prior = -len(edges) * math.log(2.0) if self.kind == "bds" else 0.0
+        return sum(self.local(v, [a for a, b in edges if b == v]) for v in range(n)) + prior
 
 
 def all_dags(n):
@@ -293,12 +303,12 @@ def _hill(case, ctx, op):
                     continue
                 if (x, y) not in eset and (y, x) not in eset:
                     if is_acyclic(n, edges + [(x, y)]) and (black is None or (x, y) not in black) and (white is None or (x, y) in white) and len(pa[y]) + 1 <= maxin:
-                        d = ref.local(y, pa[y] + [x]) - ref.local(y, pa[y])
+                        d = ref.local(y, pa[y] + [x]) - ref.local(y, pa[y]) + ref.prior_delta("+")
                         if best is None or d > best[0]:
                             best = (d, "+", (x, y))
                 if (x, y) in eset:
                     if (x, y) not in fixed:
-                        d = ref.local(y, [p for p in pa[y] if p != x]) - ref.local(y, pa[y])
+                        d = ref.local(y, [p for p in pa[y] if p != x]) - ref.local(y, pa[y]) + ref.prior_delta("-")
                         if best is None or d > best[0]:
                             best = (d, "-", (x, y))
                         rest = [e for e in edges if e != (x, y)]
